@@ -7,13 +7,20 @@ import Swat4.Spec.RestSpec
 Driver side of C17 (see `harness/internal/c17/c17.go` for the line format):
 
 ```
-C17 add    <state> <bodyhex>        => <status> <html|~> <plain|~> <effect>
+C17 add    <state> <bodyhex>        => <status> <html|~> <plain|~> <effect> <body>
 C17 add-ip <state> <iphex> <port>   => …
 C17 view   <state> <addrhex>        => …
+C17 list   <items> <gamevariant> <gamever> <gametype> <nopassworded> <nofull> <noempty>  => …
 C17 html   <hostnamehex>            => <hex>
 C17 clean  <hostnamehex>            => <hex>
 C17 addr   <stringhex>              => ok <a.b.c.d> <port> | err-ip | err-port | err-public
 ```
+`<body>` is the whole response body as one canonical token (`harness/internal/c17/canon.go`): the
+model's answer is rendered the same way (`renderBody`) and compared member by member (a `slug.Make`
+member outside the modelled subset is rendered `?` and matches anything); the oracle checks the
+implementation's body against the record planted by the case line, parsed into field values by
+position (`RestSpec.Rec`) and never passed through the model (`bodyOracle`).
+
 Model and implementation are compared on every input the model parses; inputs that reach Go's
 IPv6 parser, JSON escapes or nested JSON values are not compared.  The oracle is evaluated on the
 implementation's output for every input.
@@ -35,25 +42,113 @@ def dotted (ip : IP4) : String := s!"{ip.a.toNat}.{ip.b.toNat}.{ip.c.toNat}.{ip.
 def addrStr (a : Addr) : String := s!"{dotted a.ip}:{a.port}"
 def toQuad (ip : IP4) : RestSpec.Quad := ⟨ip.a.toNat, ip.b.toNat, ip.c.toNat, ip.d.toNat⟩
 
+/-! ## records on a case line (`harness/internal/c17/record.go`) -/
+
+/-- one field value by kind: 0 int (decimal), 1 bool (`0`/`1`), 2 string (hex of UTF-8) -/
+def parseField (kind : Nat) (tok : String) : Option RestSpec.Field :=
+  match kind with
+  | 0 => tok.toInt?.map RestSpec.Field.int
+  | 1 => if tok = "0" then some (RestSpec.Field.bool false) else if tok = "1" then some (RestSpec.Field.bool true) else none
+  | 2 => ((hex? tok).bind chars?).map RestSpec.Field.str
+  | _ => none
+
+/-- the values of one struct, by position -/
+def parseEntity (names : List String) (kinds : List Nat) (toks : List String) : Option RestSpec.Entity :=
+  if names.length ≠ toks.length ∨ kinds.length ≠ toks.length then none
+  else ((kinds.zip toks).mapM fun (k, t) => parseField k t).map fun vs => names.zip vs
+
+/-- the zero value of a struct -/
+def zeroEntity (names : List String) (kinds : List Nat)   : RestSpec.Entity :=
+  names.zip (kinds.map fun k => match k with | 0 => RestSpec.Field.int 0 | 1 => RestSpec.Field.bool false | _ => RestSpec.Field.str [])
+
+/-- `perturb` of the harness: every field changed (Go's `int` wraps) -/
+def perturbEntity (e   : RestSpec.Entity)   : RestSpec.Entity :=
+  e.map fun (n, v) => (n, match v with
+    | .str s => RestSpec.Field.str (s ++ ['~'])
+    | .int i => RestSpec.Field.int (if i = 9223372036854775807 then -9223372036854775808 else i + 1)
+    | .bool b => RestSpec.Field.bool !b)
+
+/-- `details.Info` from its field values in declaration order -/
+def toInfo (e   : RestSpec.Entity) : Option Info :=
+  match (e.map (fun x => x.2) : List RestSpec.Field) with
+  | [.str hostname, .int hostPort, .str gameVariant, .str gameVersion, .str gameType, .int numPlayers, .int maxPlayers,
+     .str mapName, .bool password, .bool statsEnabled, .int round, .int numRounds, .int timeLeft, .int timeSpecial,
+     .int swatScore, .int suspectsScore, .int swatWon, .int suspectsWon, .int bombsDefused, .int bombsTotal,
+     .str tocReports, .str weaponsSecured, .str version] =>
+    some { hostname, hostPort, gameVariant, gameVersion, gameType, numPlayers, maxPlayers, mapName, password, statsEnabled,
+           round, numRounds, timeLeft, timeSpecial, swatScore, suspectsScore, swatWon, suspectsWon, bombsDefused, bombsTotal,
+           tocReports, weaponsSecured, version }
+  | _ => none
+
+/-- `details.Player` likewise -/
+def toPlayer (e   : RestSpec.Entity) : Option Player :=
+  match (e.map (fun x => x.2) : List RestSpec.Field) with
+  | [.str name, .int score, .int ping, .int team, .bool vip, .int coopStatus, .int kills, .int teamKills, .int deaths,
+     .int arrests, .int arrested, .int vipEscapes, .int vipEscapes2, .int vipArrests, .int vipRescues, .int vipKillsValid,
+     .int vipKillsInvalid, .int bombsDefused, .bool bombsDetonated, .int caseEscapes, .int caseKills, .bool caseSecured] =>
+    some { name, score, ping, team, vip, coopStatus, kills, teamKills, deaths, arrests, arrested, vipEscapes, vipEscapes2,
+           vipArrests, vipRescues, vipKillsValid, vipKillsInvalid, bombsDefused, bombsDetonated, caseEscapes, caseKills,
+           caseSecured }
+  | _ => none
+
+def toObjective (e   : RestSpec.Entity) : Option Objective :=
+  match (e.map (fun x => x.2) : List RestSpec.Field) with
+  | [.str name, .int status] => some { name, status }
+  | _ => none
+
 structure Planted where
   ip : IP4
   port : Int
   status : Nat
   queryPort : Int
-  hostname : List Char
+  /-- the record as the case line gives it, by position: what the oracle reads -/
+  spec : RestSpec.Rec
+  /-- the same as the model's record -/
+  stored : Stored
 
+/-- `-` or items joined by `;`, each the fields of one struct joined by `,` -/
+def parseEntities (names : List String) (kinds : List Nat) (tok : String) : Option (List RestSpec.Entity) :=
+  if tok = "-" then some [] else (tok.splitOn ";").mapM fun it => parseEntity names kinds (it.splitOn ",")
+
+def mkPlanted (ip4 : IP4) (p : Int) (w : Nat) (q : Int) (info dinfo : RestSpec.Entity)
+    (players objectives : List RestSpec.Entity) : Option Planted := do
+  let i ← toInfo info
+  let di ← toInfo dinfo
+  let ps ← players.mapM toPlayer
+  let os ← objectives.mapM toObjective
+  pure ⟨ip4, p, w, q, ⟨toQuad ip4, p, info, players, objectives⟩, ⟨⟨ip4, p⟩, i, di, ps, os⟩⟩
+
+/-- a record state: `absent`, the compact form `p:…:<hostnamehex>` (everything but the hostname
+zero), the extended form `P:…` (full details value) -/
 def parseState (s : String) : Option (Option Planted) :=
   if s = "absent" then some none
   else match s.splitOn ":" with
     | ["p", ip, port, status, qport, host] =>
       match parseIP (Bytes.ofAscii ip), port.toInt?, status.toNat?, qport.toInt?, (hex? host).bind chars? with
-      | .ok ip4, some p, some w, some q, some h => some (some ⟨ip4, p, w, q, h⟩)
+      | .ok ip4, some p, some w, some q, some h =>
+        let info : RestSpec.Entity :=
+          (zeroEntity RestSpec.infoFieldNames RestSpec.infoFieldKinds).map fun (n, v) =>
+            if n = "Hostname" then (n, RestSpec.Field.str h) else (n, v)
+        (mkPlanted ip4 p w q info info [] []).map some
       | _, _, _, _, _ => none
+    | ["P", ip, port, status, qport, info, players, objectives, dimode] =>
+      match parseIP (Bytes.ofAscii ip), port.toInt?, status.toNat?, qport.toInt?,
+        parseEntity RestSpec.infoFieldNames RestSpec.infoFieldKinds (info.splitOn ","),
+        parseEntities RestSpec.playerFieldNames RestSpec.playerFieldKinds players,
+        parseEntities RestSpec.objectiveFieldNames RestSpec.objectiveFieldKinds objectives with
+      | .ok ip4, some p, some w, some q, some i, some ps, some os =>
+        let dinfo? : Option RestSpec.Entity :=
+          if dimode = "0" then some i
+          else if dimode = "1" then some (zeroEntity RestSpec.infoFieldNames RestSpec.infoFieldKinds)
+          else if dimode = "2" then some (perturbEntity i)
+          else none
+        dinfo?.bind fun di => (mkPlanted ip4 p w q i di ps os).map some
+      | _, _, _, _, _, _, _ => none
     | _ => none
 
 def stateFor (pl : Option Planted) (a : Addr) : SrvState :=
   match pl with
-  | some p => if p.ip = a.ip ∧ p.port = a.port then .present p.status p.queryPort p.hostname else .absent
+  | some p => if p.ip = a.ip ∧ p.port = a.port then .present p.status p.queryPort p.stored else .absent
   | none => .absent
 
 def renderEffect : Effect → String
@@ -62,10 +157,81 @@ def renderEffect : Effect → String
     let probe := s!"probe:{addrStr a},{a.port},{goalPort},0,{maxProbeRetries}"
     if created then s!"new:{addrStr a},{qp},{w}+{probe}" else s!"{probe}+upd:{addrStr a},{qp},{w}"
 
-def renderResp (r : Resp) : List String :=
-  match r.body with
-  | some (h, p) => [toString r.status, Bytes.toHexTok (utf8 h), Bytes.toHexTok (utf8 p), renderEffect r.effect]
-  | none => [toString r.status, "~", "~", renderEffect r.effect]
+/-! ## the canonical body token (`harness/internal/c17/canon.go`) -/
+
+def renderAtom : JAtom → String
+  | .str s => "s" ++ Bytes.toHex (utf8 s)
+  | .int n => "n" ++ toString n
+  | .bool b => if b then "t" else "f"
+  | .unmodelled => "?"
+
+/-- an object: the members in document order -/
+def renderObj (ms : List (String × JAtom)) : String :=
+  "{" ++ ",".intercalate (ms.map fun (k, v) => k ++ ":" ++ renderAtom v) ++ "}"
+
+/-- a slice that is `nil` when empty (`null`) -/
+def renderNilSlice (xs : List String) : String :=
+  if xs.isEmpty then "z" else "[" ++ ",".intercalate xs ++ "]"
+
+def renderDetail (d : ServerDetailJson) : String :=
+  match detailMemberNames with
+  | [i, p, o] =>
+    "{" ++ i ++ ":" ++ renderObj d.info.members ++ "," ++ p ++ ":" ++ renderNilSlice (d.players.map (renderObj ·.members)) ++
+      "," ++ o ++ ":" ++ renderNilSlice (d.objectives.map (renderObj ·.members)) ++ "}"
+  | _ => "?"
+
+/-- the elements of the listing sorted as the harness sorts them (the order of the Go answer is that of a
+map iteration); `make([]model.Server, 0, n)` is never `nil`: `[]` when empty -/
+def renderList (l : List ServerJson) : String :=
+  "[" ++ ",".intercalate ((l.map (renderObj ·.members)).mergeSort (· ≤ ·)) ++ "]"
+
+def renderBody : RespBody → String
+  | .server sv => renderObj sv.members
+  | .detail d => renderDetail d
+  | .list l => renderList l
+
+/-- `gin.H{"error": "Invalid server address"}` of the two handlers' 400 -/
+def errorBody : String := "{error:s" ++ Bytes.toHex (Bytes.ofAscii "Invalid server address") ++ "}"
+
+/-- `emptyOn400`: the listing's 400 is `c.Status(400)`, without a body -/
+def renderResp (r : Resp) (emptyOn400 : Bool := false) : List String :=
+  let (h, p) := match r.hostnames with
+    | some (h, p) => (Bytes.toHexTok (utf8 h), Bytes.toHexTok (utf8 p))
+    | none => ("~", "~")
+  let body := match r.body with
+    | some b => renderBody b
+    | none => if r.status = 400 ∧ !emptyOn400 then errorBody else "~"
+  [toString r.status, h, p, renderEffect r.effect, body]
+
+/-- the structural characters of a canonical token are tokens by themselves, the rest are atoms / names -/
+def tokenizeAux : List Char → List Char → List String → List String
+  | [], cur, acc => (if cur.isEmpty then acc else String.ofList cur.reverse :: acc).reverse
+  | c :: t, cur, acc =>
+    if c = '{' ∨ c = '}' ∨ c = '[' ∨ c = ']' ∨ c = ',' ∨ c = ':' then
+      tokenizeAux t [] (String.singleton c :: (if cur.isEmpty then acc else String.ofList cur.reverse :: acc))
+    else tokenizeAux t (c :: cur) acc
+
+def tokenize (s : String) : List String := tokenizeAux s.toList [] []
+
+/-- compare the model's tokens with the implementation's; `?` (an unmodelled member) matches any one
+token.  `none` = equal, `some k` = they differ first at the member named `k` -/
+def diffToks : List String → List String → String → Option String
+  | [], [], _ => none
+  | m :: ms, i :: is, key =>
+    if m = i ∨ (m = "?" ∧ i ≠ "{" ∧ i ≠ "[") then
+      diffToks ms is (match ms with | ":" :: _ => m | _ => key)
+    else some (match ms with | ":" :: _ => m | _ => key)
+  | _, _, key => some key
+
+/-- model output vs implementation output: the first four tokens literally, the body with wildcards -/
+def sameOutput (m out : List String) : Bool × String :=
+  match m, out with
+  | [a, b, c, d, mb], [a', b', c', d', ob] =>
+    if a ≠ a' ∨ b ≠ b' ∨ c ≠ c' ∨ d ≠ d' then (false, "")
+    else match diffToks (tokenize mb) (tokenize ob) "" with
+      | none => (true, "")
+      | some k => (false, s!"body-differs-at={k} ")
+  | _, _ => (m == out, "")
 
 /-! ## oracle -/
 
@@ -99,10 +265,108 @@ def known (pl : Option Planted) (q : RestSpec.Quad) (port : Nat) : RestSpec.Know
     else ⟨false, false, false, false⟩
   | none => ⟨false, false, false, false⟩
 
-/-- oracle common to the three HTTP operations, on the implementation's four output tokens -/
-def httpOracle (table : List Nat) (expected : Option Nat) (out : List String) : Bool × String :=
+/-! ### the body against the planted record ("200 with the stored data")
+
+Everything below reads the implementation's canonical body token and `RestSpec.Rec` (the case line's
+field values by position) only; nothing goes through `Swat4.Rest`. -/
+
+/-- a scalar token of the canonical form -/
+def atomOf (tok : String) : Option RestSpec.Atom :=
+  match tok.toList with
+  | ['t'] => some (.bool true)
+  | ['f'] => some (.bool false)
+  | ['z'] => some .null
+  | 'n' :: lit => some (.num lit)
+  | 's' :: hx => ((Bytes.ofHexChars hx).bind chars?).map .str
+  | _ => none
+
+abbrev Toks := List String
+
+def expectTok (t : String) (what : String) : Toks → Except String Toks
+  | h :: rest => if h = t then .ok rest else .error s!"{what}(got-{h})"
+  | [] => .error s!"{what}(got-end)"
+
+/-- the members `name:atom` of one object, in the order of `wants`, separated by `,` -/
+def checkMembers (path : String) (ip : RestSpec.Quad) (port : Int) (e : RestSpec.Entity) :
+    List (String × RestSpec.Want) → Toks → Except String Toks
+  | [], ts => .ok ts
+  | (name, w) :: rest, ts =>
+    match ts with
+    | k :: ":" :: a :: ts' =>
+      if k ≠ name then .error s!"{path}{name}:missing-or-misplaced(got-{k})"
+      else match atomOf a with
+        | none => .error s!"{path}{name}:not-a-scalar"
+        | some atom =>
+          if !w.holds ip port e atom then .error s!"{path}{name}"
+          else if rest.isEmpty then .ok ts'
+          else (expectTok "," s!"{path}{name}:last-member" ts').bind (checkMembers path ip port e rest)
+    | _ => .error s!"{path}{name}:truncated"
+
+/-- `{…}` with exactly the members of `wants` -/
+def checkObject (path : String) (ip : RestSpec.Quad) (port : Int) (e : RestSpec.Entity)
+    (wants : List (String × RestSpec.Want)) (ts : Toks) : Except String Toks := do
+  let ts ← expectTok "{" s!"{path}:not-an-object" ts
+  let ts ← checkMembers path ip port e wants ts
+  expectTok "}" s!"{path}:extra-member" ts
+
+/-- `null` for no element (Go's `nil` slice), else `[obj,obj,…]`: one object per stored element, in stored order -/
+def checkArray (path : String) (ip : RestSpec.Quad) (port : Int) (wants : List (String × RestSpec.Want)) :
+    List RestSpec.Entity → Nat → Toks → Except String Toks
+  | [], 0, ts => expectTok "z" s!"{path}:not-null-for-none" ts
+  | [], _, ts => expectTok "]" s!"{path}:more-elements-than-stored" ts
+  | e :: es, n, ts => do
+    let ts ← expectTok (if n = 0 then "[" else ",") s!"{path}:fewer-elements-than-stored" ts
+    let ts ← checkObject s!"{path}[{n}]." ip port e wants ts
+    checkArray path ip port wants es (n + 1) ts
+
+def checkServer (path : String) (r : RestSpec.Rec) (ts : Toks) : Except String Toks :=
+  checkObject path r.ip r.port r.info RestSpec.serverWants ts
+
+/-- `model.ServerDetail`: `info`, `players`, `objectives` -/
+def checkDetail (r : RestSpec.Rec) (ts : Toks) : Except String Toks :=
+  match RestSpec.detailMembers with
+  | [i, p, o] => do
+    let ts ← expectTok "{" "detail:not-an-object" ts
+    let ts ← expectTok i "detail:info" ts
+    let ts ← expectTok ":" "detail:info" ts
+    let ts ← checkServer "info." r ts
+    let ts ← expectTok "," "detail:players" ts
+    let ts ← expectTok p "detail:players" ts
+    let ts ← expectTok ":" "detail:players" ts
+    let ts ← checkArray "players" r.ip r.port RestSpec.playerWants r.players 0 ts
+    let ts ← expectTok "," "detail:objectives" ts
+    let ts ← expectTok o "detail:objectives" ts
+    let ts ← expectTok ":" "detail:objectives" ts
+    let ts ← checkArray "objectives" r.ip r.port RestSpec.objectiveWants r.objectives 0 ts
+    expectTok "}" "detail:extra-member" ts
+  | _ => .error "spec"
+
+def wholeBody (r : Except String Toks) : Bool × String :=
+  match r with
+  | .ok [] => (true, "")
+  | .ok (t :: _) => (false, s!"sig=body:trailing({t})")
+  | .error e => (false, s!"sig=body:{e}")
+
+inductive Shape where
+  | server | detail
+
+/-- the body of an add / view answer: a 200 is the planted record, anything else carries no server data -/
+def bodyOracle (shape : Shape) (pl : Option Planted) (code : Nat) (body : String) : Bool × String :=
+  if code = 200 then
+    match pl with
+    | none => (false, "sig=body:200-without-a-stored-record")
+    | some p =>
+      match shape with
+      | .server => wholeBody (checkServer "" p.spec (tokenize body))
+      | .detail => wholeBody (checkDetail p.spec (tokenize body))
+  else if body = "~" ∨ body = errorBody then (true, "")
+  else (false, "sig=body:data-without-200")
+
+/-- oracle common to the three HTTP operations, on the implementation's five output tokens -/
+def httpOracle (table : List Nat) (expected : Option Nat) (shape : Shape) (pl : Option Planted) (out : List String) :
+    Bool × String :=
   match out with
-  | [st, html, plain, eff] =>
+  | [st, html, plain, eff, body] =>
     match st.toNat? with
     | some code =>
       if code ≥ 500 then (false, "sig=status-5xx")
@@ -113,14 +377,82 @@ def httpOracle (table : List Nat) (expected : Option Nat) (out : List String) : 
       else if !fieldOk html RestSpec.Inert then (false, "sig=html-not-inert")
       else if !fieldOk plain RestSpec.NoCodes then (false, "sig=plain-has-codes")
       else if code = 200 ∧ (html = "~" ∨ plain = "~") then (false, "sig=200-without-body")
-      else (true, "")
+      else bodyOracle shape pl code body
     | none => (false, "sig=no-status")
   | _ => (false, "sig=bad-output")
 
 def finish (model : Option (List String)) (out : List String) (orc : Bool × String) : Verdict :=
   match model with
-  | some m => verdict (m == out) orc.1 s!"{orc.2} model={" ".intercalate m}"
+  | some m =>
+    let (same, where_) := sameOutput m out
+    verdict same orc.1 s!"{orc.2} {where_}model={" ".intercalate m}"
   | none => if orc.1 then .agree else .disagreeFails s!"{orc.2} model=unmodelled"
+
+/-! ### the listing -/
+
+structure ListedItem where
+  pl : Planted
+  /-- seconds since the last refresh; `none`: never refreshed -/
+  age : Option Int
+
+def parseListed (tok : String) : Option (List ListedItem) :=
+  if tok = "-" then some []
+  else (tok.splitOn "|").mapM fun it =>
+    match it.splitOn "@" with
+    | [st, age] =>
+      match parseState st, (if age = "z" then some none else age.toInt?.map some) with
+      | some (some pl), some a => some ⟨pl, a⟩
+      | _, _ => none
+    | _ => none
+
+/-- `~` absent, else the hex of the value -/
+def parseParam (tok : String) : Option (Option Bytes) :=
+  if tok = "~" then some none else (hex? tok).map some
+
+def addrKey (r : RestSpec.Rec) : String :=
+  Bytes.toHex (Bytes.ofAscii s!"{r.ip.a}.{r.ip.b}.{r.ip.c}.{r.ip.d}:{r.port}")
+
+/-- every element against the record the reference selection expects at that place (elements and
+expected records both sorted by address) -/
+def checkListElems : List RestSpec.Rec → Nat → Toks → Except String Toks
+  | [], 0, ts => (expectTok "[" "list:not-an-array" ts).bind (expectTok "]" "list:more-servers-than-selected")
+  | [], _, ts => expectTok "]" "list:more-servers-than-selected" ts
+  | r :: rs, n, ts => do
+    let ts ← expectTok (if n = 0 then "[" else ",") "list:fewer-servers-than-selected" ts
+    let ts ← checkServer s!"[{addrKey r}]." r ts
+    checkListElems rs (n + 1) ts
+
+def livenessSecs : Int := 180
+
+def flagOf (v : Option Bytes) : Option Bool :=
+  match v with
+  | none => some false
+  | some b =>
+    let s := String.ofList (latin1 b)
+    if RestSpec.flagTrue.contains s then some true else if RestSpec.flagFalse.contains s then some false else none
+
+def listOracle (items : List ListedItem) (gv gver gt : Option (List Char)) (np nf ne : Option Bytes) (out : List String) :
+    Bool × String :=
+  match out with
+  | [st, _, _, eff, body] =>
+    match st.toNat? with
+    | some code =>
+      if code ≥ 500 then (false, "sig=status-5xx")
+      else if eff ≠ "none" then (false, "sig=list-changed-store")
+      else match flagOf np, flagOf nf, flagOf ne with
+        | some p, some f, some e =>
+          if code ≠ 200 then (false, s!"sig=wrong-row:expected-200")
+          else
+            let sel := items.filter fun it =>
+              RestSpec.listedLive it.pl.status it.age livenessSecs && RestSpec.listedMatches it.pl.spec.info gv gver gt p f e
+            let recs := (sel.map (·.pl.spec)).mergeSort (fun a b => addrKey a ≤ addrKey b)
+            wholeBody (checkListElems recs 0 (tokenize body))
+        | _, _, _ =>
+          if code ≠ 400 then (false, "sig=wrong-row:expected-400")
+          else if body ≠ "~" then (false, "sig=body:data-without-200")
+          else (true, "")
+    | none => (false, "sig=no-status")
+  | _ => (false, "sig=bad-output")
 
 def handle (args out : List String) : Verdict :=
   match args with
@@ -172,7 +504,7 @@ def handle (args out : List String) : Verdict :=
             let valid := RestSpec.routable q && RestSpec.validSubmitPort p
             some (RestSpec.addTable valid (known pl q p.toNat))
           | none => some 400
-      finish model out (httpOracle RestSpec.addStatuses expected out)
+      finish model out (httpOracle RestSpec.addStatuses expected .server pl out)
     | _, _, _ => .bad "add-ip args"
   | ["add", st, bodyh] =>
     match parseState st, hex? bodyh with
@@ -182,7 +514,7 @@ def handle (args out : List String) : Verdict :=
         | .ok a => some (renderResp (addExecute a (stateFor pl a)))
         | .err _ => some (renderResp badRequest)
         | .unmodelled => none
-      finish model out (httpOracle RestSpec.addStatuses none out)
+      finish model out (httpOracle RestSpec.addStatuses none .server pl out)
     | _, _ => .bad "add args"
   | ["view", st, ah] =>
     match parseState st, hex? ah with
@@ -202,11 +534,24 @@ def handle (args out : List String) : Verdict :=
           match RestSpec.parseAddress (latin1 a) with
           | some (q, p) => some (RestSpec.viewTable (RestSpec.routable q && RestSpec.validPort p) (known pl q p))
           | none => some 400
-        let orc := httpOracle RestSpec.viewStatuses expected out
+        let orc := httpOracle RestSpec.viewStatuses expected .detail pl out
         -- a GET never changes the store
-        let orc := if orc.1 ∧ out.getLast? ≠ some "none" then (false, "sig=view-changed-store") else orc
+        let orc := if orc.1 ∧ out[3]? ≠ some "none" then (false, "sig=view-changed-store") else orc
         finish model out orc
     | _, _ => .bad "view args"
+  | ["list", items, gv, gver, gt, np, nf, ne] =>
+    match parseListed items, parseParam gv, parseParam gver, parseParam gt, parseParam np, parseParam nf, parseParam ne with
+    | some its, some gv, some gver, some gt, some np, some nf, some ne =>
+      -- string parameters as code points (the generator writes valid UTF-8 only)
+      let cs? (v : Option Bytes) : Option (Option (List Char)) :=
+        match v with | none => some none | some b => (chars? b).map some
+      match cs? gv, cs? gver, cs? gt with
+      | some gv, some gver, some gt =>
+        let recs : List Listed := its.map fun it => ⟨it.pl.status, it.age.map (fun a => -a * 1000000000), it.pl.stored⟩
+        let r := listServers 0 (livenessSecs * 1000000000) ⟨gv, gver, gt, np, nf, ne⟩ recs
+        finish (some (renderResp r true)) out (listOracle its gv gver gt np nf ne out)
+      | _, _, _ => .bad "list: a string parameter is not valid UTF-8"
+    | _, _, _, _, _, _, _ => .bad "list args"
   | _ => .bad "C17 shape"
 
 end Swat4.Drv.C17
